@@ -210,6 +210,24 @@ func stringChains(v ssa.Value, maxLen int) []chainResult {
 		}
 		seen[v] = true
 		defer delete(seen, v)
+		// a function the reference tree did not have (an extracted helper) is read through: its successful returns are
+		// the value, its parameters are the arguments of the call we came through
+		if call, idx := newHelperResult(v); call != nil {
+			if rets := helperSuccessResults(call, idx); len(rets) > 0 {
+				for _, rv := range rets {
+					walk(rv, steps, seen)
+				}
+				return
+			}
+		}
+		if prm, ok := v.(*ssa.Parameter); ok {
+			if args := helperBind[prm]; len(args) > 0 {
+				for _, a := range args {
+					walk(a, steps, seen)
+				}
+				return
+			}
+		}
 		switch x := v.(type) {
 		case *ssa.Extract:
 			// only (string, error) results are unary string transformations
@@ -261,6 +279,96 @@ func stringChains(v ssa.Value, maxLen int) []chainResult {
 func isStringType(t types.Type) bool {
 	b, ok := t.Underlying().(*types.Basic)
 	return ok && b.Info()&types.IsString != 0
+}
+
+// helperBind: parameters of new helpers → the arguments of the calls that were read through (filled by
+// helperSuccessResults; over-approximate when one helper is called from several places).
+var helperBind = map[*ssa.Parameter][]ssa.Value{}
+
+// newHelperResult: v is (result idx of) a static call of a function the reference tree did not have.
+func newHelperResult(v ssa.Value) (*ssa.Call, int) {
+	idx := 0
+	if ex, ok := v.(*ssa.Extract); ok {
+		v, idx = ex.Tuple, ex.Index
+	}
+	call, ok := v.(*ssa.Call)
+	if !ok || theProg == nil {
+		return nil, 0
+	}
+	f := call.Call.StaticCallee()
+	if f == nil || len(f.Blocks) == 0 {
+		return nil, 0
+	}
+	if obj, isFn := f.Object().(*types.Func); isFn && theProg.newHelpers[obj] {
+		return call, idx
+	}
+	return nil, 0
+}
+
+// helperSuccessResults: result idx of every return of the helper that is not a failure return (a failure return hands
+// back a non-nil-constant error / a false constant as its last result together with a zero value); binds the
+// helper's parameters to the call's arguments.
+func helperSuccessResults(call *ssa.Call, idx int) []ssa.Value {
+	f := call.Call.StaticCallee()
+	args := call.Call.Args
+	for i, prm := range f.Params {
+		if i < len(args) {
+			dup := false
+			for _, a := range helperBind[prm] {
+				if a == args[i] {
+					dup = true
+				}
+			}
+			if !dup {
+				helperBind[prm] = append(helperBind[prm], args[i])
+			}
+		}
+	}
+	var out []ssa.Value
+	for _, r := range returnsOf(f) {
+		if idx >= len(r.Results) {
+			continue
+		}
+		if n := len(r.Results); n >= 2 && idx != n-1 {
+			last := r.Results[n-1]
+			failed := false
+			if isErrorType(last.Type()) && !isNilConst(last) {
+				failed = true
+			}
+			if c, ok := last.(*ssa.Const); ok && c.Value != nil && c.Value.ExactString() == "false" {
+				failed = true
+			}
+			if c, ok := r.Results[idx].(*ssa.Const); failed && ok && (c.Value == nil || c.Value.ExactString() == `""` || c.Value.ExactString() == "0") {
+				continue
+			}
+		}
+		out = append(out, r.Results[idx])
+	}
+	return out
+}
+
+// concatPartsAlts: concatParts for every way the value can be produced when it is the result of a new helper
+// (`return join(mbox, domain), nil` with a helper that has one return per shape).
+func concatPartsAlts(v ssa.Value) [][]ssa.Value {
+	if call, idx := newHelperResult(v); call != nil && isStringType(v.Type()) {
+		var out [][]ssa.Value
+		for _, rv := range helperSuccessResults(call, idx) {
+			out = append(out, concatPartsAlts(rv)...)
+		}
+		if len(out) > 0 {
+			return out
+		}
+	}
+	if b, ok := v.(*ssa.BinOp); ok && b.Op == token.ADD && isStringType(b.Type()) {
+		var out [][]ssa.Value
+		for _, l := range concatPartsAlts(b.X) {
+			for _, r := range concatPartsAlts(b.Y) {
+				out = append(out, append(append([]ssa.Value{}, l...), r...))
+			}
+		}
+		return out
+	}
+	return [][]ssa.Value{{v}}
 }
 
 // concatParts flattens a chain of string + operations into its operands.
